@@ -14,7 +14,7 @@ Expression ast: ["num", v] | ["id", name] | ["un", op, e] | ["bin", op, l, r] | 
 from __future__ import annotations
 
 from vf import rt
-from vf.rt import And, Or, Not, Ite
+from vf.rt import And, Or, Not, Ite, Implies
 
 
 class RefEOF(Exception):
